@@ -40,6 +40,14 @@ func (h *RefreshFunc) Final(ctx *sqlite.AggregateContext) {
 		ctx.ResultError(fmt.Errorf("table not found: %s", fCtx.tableName))
 		return
 	}
+	if h.sc.txFixedWriteTime {
+		// The open transaction's writes all carry the time of its first
+		// write. Rows another writer committed after that time would come in
+		// here, and the transaction's own UPDATE or DELETE of such a row
+		// would lose against it without an error.
+		ctx.ResultError(fmt.Errorf("cannot refresh %s inside a transaction that has written", fCtx.tableName))
+		return
+	}
 	if !vt.S3Options.ReadOnly && vt.Tree.Root.IsDirty() {
 		// replacing the tree would silently drop the open transaction's rows
 		// (a read-only table has none: it is only dirty while it holds the
